@@ -247,9 +247,24 @@ def expected_parse(payload, checks, validators, default_parser):
     return ok, calls
 
 
+def near_now_payloads():
+    """exp / nbf instants close to the current time, rendered with several UTC offsets and fractional seconds (margins: >= 60 s future, >= 5 s past)"""
+    import datetime as dt
+    now = dt.datetime.now(dt.timezone.utc); out = []
+    for claim, deltas in (('exp', (-3600, -600, -5, 120, 600, 7200)), ('nbf', (-3600, -600, -5, 90, 300, 600, 7200))):
+        for d in deltas:
+            t = now + dt.timedelta(seconds=d)
+            for off in (0, 330, -60, -480, 60, 840):
+                tz = dt.timezone(dt.timedelta(minutes=off)); txt = t.astimezone(tz).isoformat(timespec='seconds')
+                if off == 0: txt = txt.replace('+00:00', 'Z')
+                out.append({claim: txt})
+            out.append({claim: t.astimezone(dt.timezone.utc).isoformat(timespec='milliseconds').replace('+00:00', 'Z')})
+    return out
+
+
 def confirm_parser(ses, v, time_claims=False):
     r = v['replay']; proto = r.get('proto') or 'v4.local'
-    payloads = TIME_PAYLOADS if time_claims else PAYLOADS
+    payloads = (TIME_PAYLOADS + near_now_payloads()) if time_claims else PAYLOADS
     m = {'key': '07' * 32, 'nonce': '09' * 32}
     steps = key_steps(proto, m)
     for i, p in enumerate(payloads):
